@@ -124,6 +124,16 @@ claim("C20",
       TRUST + "values are identified by the number of the set that produced them",
       "TLA+ model checking (TLC, incl. a liveness property) + TLC trace validation of lock-step executions of both crates",
       "4/C20")
+claim("C19",
+      "Transport.tla composes the writer buffer, the transport's write-all loop (progress held in the future), a kernel "
+      "buffer with partial writes and the reader; TLC checks that the peer's bytes stay a prefix of the sent frames for "
+      "all interleavings, and exhibits the corruption once a send may be abandoned (the open finding). Real Unix sockets "
+      "are exercised through zlink-tokio and zlink-smol (bound and inherited-fd listeners, staggered accepts, 1..8 "
+      "connections, both directions at once, 0 B..1 MiB, slow/fast readers, abandoned sends); the per-direction send "
+      "and receive lists are validated by TLC against TransportTrace (distinct connection ids included), with exactly "
+      "the listed deviation enabled for directions on which a send was abandoned.",
+      TRUST + "kernel behaviour is sampled, not enumerated; open finding C19-abandoned-send-resent-from-start",
+      "TLA+ model checking (TLC) of the transport composition + TLC trace validation of real-socket executions", "4/C19")
 
 
 def main():
